@@ -10,7 +10,7 @@ from vlib import core, gen, sched, gosrc
 PROP = "C09"
 META = {
     "technique": "Coq proof: slot-ownership invariant (the location lists are a permutation of all slots) by induction over all histories, allocation choices and fault patterns - at API granularity (Model/Accounting.v) and at the granularity of the code's critical sections with every interleaving of user threads and both event loops (Model/AccountingConc.v); quiescence corollaries; tie: differential execution of BOTH models against real session pairs (sequential ops compared after every op, concurrent traffic phases compared at the following quiescent point) + independent in-use==0 oracle, also after phases in which closes race with the peer's flushes; plus mechanism S for the event-loop/owner hand-off: the real Stream.fillDataToReadBuffer and Stream.Close as controlled threads (instrumented stream.go, pendingData mutex as scheduling point) under every single-pre-emption schedule, with the leak oracle after each and the observed access order (pendingData.add before the state re-check) compared with the model's LoopAdd/LoopCheck order",
-    "level_text": "C09_inv / C09_inv_interleaved (every slot in exactly one location, for every history resp. every interleaving of critical sections, every allocation outcome and fault pattern) and C09 / C09_interleaved (once every stream is closed on both ends - every close() has returned, both event loops are between elements -, nothing is in flight and the application holds nothing, every slot is free) hold unconditionally for the current tree, whose recycle() cleans the pinned list (switch sw_recycle_cleans_pinned regenerated from buffer.go on every run; Props/C09.v stops compiling if the call disappears). The former defect (pinned slices leaked at Close: 4096 B stayed in use) is repaired by a234a74; its history stays as directed case 0 of every run and as a regression Example about the old-code variant of the model.",
+    "level_text": "C09_inv / C09_inv_interleaved (every slot in exactly one location, for every history resp. every interleaving of critical sections, every allocation outcome and fault pattern) and C09 / C09_interleaved (once every stream is closed on both ends - every close() has returned, both event loops are between elements -, nothing is in flight and the application holds nothing, every slot is free) hold unconditionally - for histories that include writes, Reserve, ReleaseReadAndReuse and flushes AFTER a stream's Close - for the tree whose recycle() cleans the pinned list and whose write operations refuse to allocate for a closed stream (switches sw_recycle_cleans_pinned / sw_write_after_close_rejected regenerated from buffer.go on every run; Props/C09.v stops compiling when one of them is off, and the harness then shows the leaking history). The former defect (pinned slices leaked at Close: 4096 B stayed in use) is repaired by a234a74; its history stays as directed case 0 of every run and as a regression Example about the old-code variant of the model.",
     "level_note": "Trusted: coqc kernel; allocation and slice sizes are inputs of the model (the allocator itself is C01/C02's subject); the fine-grained model keeps Write/Flush/Release/Reuse atomic (they touch owner-local buffers, the free lists - atomic per slot, C01/C02 - and one atomic queue put) and assumes one owner thread per stream object; socket events (fallback data, close notification) carry no slots and are delivered in one step; correspondence is sampled; event-loop delivery is waited for with generous bounds.",
 }
 
@@ -23,13 +23,7 @@ def strip_comments(src):
     return re.sub(r"//[^\n]*", "", src)
 
 
-def scan_fx():
-    """Translator for the one switch of Model/Accounting.v: does linkedBuffer.recycle() give the pinned list back?
-    Returns (value, description, error). Anything that is not exactly one of the two known shapes is an error."""
-    try:
-        src = gosrc.read("buffer.go")
-    except OSError as ex:
-        return None, None, "cannot read buffer.go: %s" % ex
+def scan_pinned(src):
     m = re.search(r"func \(l \*linkedBuffer\) recycle\(\) \{(.*?)\n}\n", src, re.S)
     if not m:
         return None, None, "cannot find linkedBuffer.recycle in buffer.go"
@@ -46,10 +40,61 @@ def scan_fx():
     return None, None, "linkedBuffer.recycle mentions the pinned list in a way the translator does not know (%d call(s), %d mention(s))" % (calls, mentions)
 
 
-def write_switch(fx):
-    txt = ("(* GENERATED from /repo's buffer.go by props/C09.py (mechanism G for the switch of Model/Accounting.v). Do not edit. *)\n"
-           "(* true: linkedBuffer.recycle() also cleans the pinned list; false: it does not. *)\n"
-           "Definition sw_recycle_cleans_pinned : bool := %s.\n" % ("true" if fx else "false"))
+def scan_write_guard(src):
+    """do WriteByte / WriteBytes / Reserve refuse to allocate for a closed stream?"""
+    guarded = []
+    for fn in ("WriteByte", "WriteBytes", "Reserve"):
+        m = re.search(r"func \(l \*linkedBuffer\) %s\([^)]*\)[^{\n]*\{(.*?)\n}\n" % fn, src, re.S)
+        if not m:
+            return None, None, "cannot find linkedBuffer.%s in buffer.go" % fn
+        body = strip_comments(m.group(1))
+        g = re.search(r"if ([^{\n]+) \{\s*return [^\n]*ErrStreamClosed\s*\}", body)
+        if not g:
+            if "ErrStreamClosed" in body or "streamClosed" in body:
+                return None, None, "linkedBuffer.%s mentions the closed state in a way the translator does not know" % fn
+            guarded.append(False)
+            continue
+        cond = g.group(1).strip()
+        # the guard must come before the first allocation
+        if body.index(g.group(0)) > min([body.index(x) for x in ("l.alloc(", "allocShmBuffer(") if x in body] or [10 ** 9]):
+            return None, None, "linkedBuffer.%s checks the closed state only after it has allocated" % fn
+        ok = "getStreamState() == uint32(streamClosed)" in cond
+        h = re.fullmatch(r"l\.(\w+)\(\)", cond)
+        if not ok and h:
+            hm = re.search(r"func \(l \*linkedBuffer\) %s\(\) bool \{(.*?)\n}\n" % h.group(1), src, re.S)
+            ok = bool(hm) and "getStreamState() == uint32(streamClosed)" in strip_comments(hm.group(1))
+        if not ok:
+            return None, None, "linkedBuffer.%s returns ErrStreamClosed under a condition the translator does not know: %s" % (fn, cond)
+        guarded.append(True)
+    if all(guarded):
+        return True, "WriteByte / WriteBytes / Reserve return ErrStreamClosed for a closed stream before allocating", None
+    if not any(guarded):
+        return False, "WriteByte / WriteBytes / Reserve have no state check: a write after Close allocates shared memory", None
+    return None, None, "only some of WriteByte / WriteBytes / Reserve check the closed state: %s" % guarded
+
+
+def scan_fx():
+    """Translator for the two switches of Model/Accounting.v.  Returns ((fx, gx), description, error).
+    Anything that is not exactly one of the known shapes is an error."""
+    try:
+        src = gosrc.read("buffer.go")
+    except OSError as ex:
+        return None, None, "cannot read buffer.go: %s" % ex
+    f, d1, e1 = scan_pinned(src)
+    if e1:
+        return None, None, e1
+    g, d2, e2 = scan_write_guard(src)
+    if e2:
+        return None, None, e2
+    return (f, g), d1 + "; " + d2, None
+
+
+def write_switch(sw):
+    txt = ("(* GENERATED from /repo's buffer.go by props/C09.py (mechanism G for the switches of Model/Accounting.v). Do not edit. *)\n"
+           "(* sw_recycle_cleans_pinned: linkedBuffer.recycle() also cleans the pinned list. *)\n"
+           "(* sw_write_after_close_rejected: WriteBytes / WriteByte / Reserve return ErrStreamClosed for a closed stream instead of allocating. *)\n"
+           "Definition sw_recycle_cleans_pinned : bool := %s.\n"
+           "Definition sw_write_after_close_rejected : bool := %s.\n" % ("true" if sw[0] else "false", "true" if sw[1] else "false"))
     with core.Lock("coq"):
         old = open(SWITCH_FILE).read() if os.path.exists(SWITCH_FILE) else None
         if old != txt:
@@ -59,8 +104,10 @@ def write_switch(fx):
 
 def current_switch():
     try:
-        return "true" in open(SWITCH_FILE).read().split(":=")[1]
-    except (OSError, IndexError):
+        t = open(SWITCH_FILE).read()
+        return tuple("true" in re.search(r"Definition %s : bool := (\w+)\." % n, t).group(1)
+                     for n in ("sw_recycle_cleans_pinned", "sw_write_after_close_rejected"))
+    except (OSError, AttributeError):
         return None
 
 
@@ -118,7 +165,7 @@ def case_to_coq(c, fx):
     for o in c["ops"][:upto]:
         steps.append("{| a_op := %s; a_cmp := %s; a_inuse := %s; a_qs := %s; a_qc := %s |}"
                      % (op_to_coq(o), b(not o.get("nocmp")), core.coq_list([core.z(x) for x in (o["inuse"] or [])]), core.z(o["q"][0]), core.z(o["q"][1])))
-    return "{| a_fx := %s; a_caps := %s; a_qcap := %s; a_steps := %s |}" % (b(fx), natlist(c["caps"]), core.z(c["qcap"]), core.coq_list(steps))
+    return "{| a_fx := %s; a_gx := %s; a_caps := %s; a_qcap := %s; a_steps := %s |}" % (b(fx[0]), b(fx[1]), natlist(c["caps"]), core.z(c["qcap"]), core.coq_list(steps))
 
 
 def eval_chunk(args):
@@ -264,7 +311,7 @@ def check(run):
         fx = current_switch()
         fdesc = "TRANSLATION FAILED (%s); variant of the last successful translation used: %s" % (ferr, fx)
         if fx is None:
-            fx = False
+            fx = (False, False)
             fdesc += " (no recorded variant: old-code variant used for the comparison only)"
     else:
         write_switch(fx)
@@ -292,7 +339,7 @@ def check(run):
             o = c["ops"][step] if 0 <= step < len(c["ops"]) else {}
             run.add_corr_break("D: case %s: after op %s (%s) the model and the real session pair differ in: %s"
                                % (c["id"], step, o.get("op"), FIELDS.get(field, field)),
-                               dict(brief(c, step), differs_in=FIELDS.get(field, field), model_fx=fx))
+                               dict(brief(c, step), differs_in=FIELDS.get(field, field), model_switches=list(fx)))
     # ---- mechanism S: the event loop's delivery against the owner's Close, on the real functions ----
     scases, serr = run_sched(run.tier)
     sched_cov = {}
@@ -341,7 +388,7 @@ def check(run):
         "expired_waits": [w for c in cases for w in (c.get("expired") or [])][:10],
         "queue_caps": sorted({c["qcap"] for c in cases}),
         "scheduled_delivery_vs_close": sched_cov,
-        "model_switch_fx_recycle_cleans_pinned": fx,
+        "model_switches": {"sw_recycle_cleans_pinned": fx[0], "sw_write_after_close_rejected": fx[1]},
         "model_switch_chosen_because": fdesc,
         "oracle_failures_by_signature": {s: sum(1 for f in run.oracle_failures if f["signature"] == s) for s in sorted({f["signature"] for f in run.oracle_failures})},
     })
